@@ -23,6 +23,7 @@ type Task struct {
 
 	canceled  bool
 	executing bool
+	resubmit  bool // submitted again while executing, locked by lock
 	overtime  bool // locked by scheduleLock
 
 	// these are populated at task creation
@@ -278,10 +279,17 @@ func (t *Task) runWithLocking() {
 	t.lock.Lock()
 
 	// we will not attempt execution, remove from queues
+	wasListed := t.queueElement != nil || t.prioritizedQueueElement != nil || t.scheduleListElement != nil
 	t.removeFromQueues()
 
 	// check if task is already executing
 	if t.executing {
+		// The task was submitted again while it is executing and has now been
+		// removed from all lists. Remember to submit it again when the
+		// current execution finishes, so that the request is not lost.
+		if wasListed {
+			t.resubmit = true
+		}
 		t.lock.Unlock()
 		return
 	}
@@ -369,6 +377,8 @@ func (t *Task) executeWithLocking() {
 
 		// reset state
 		t.executing = false
+		resubmit := t.resubmit && t.isActive()
+		t.resubmit = false
 
 		// repeat?
 		if t.isActive() && t.repeat != 0 && t.executeAt.IsZero() {
@@ -384,6 +394,11 @@ func (t *Task) executeWithLocking() {
 		t.ctx, t.cancelCtx = context.WithCancel(t.module.Ctx)
 
 		t.lock.Unlock()
+
+		// execute again if the task was due again while it was executing
+		if resubmit {
+			t.StartASAP()
+		}
 	}()
 
 	// run
